@@ -255,7 +255,7 @@ func c10Slow(t *tr.Writer, id int, c c10Case) {
 				if kind == "resp" {
 					ms = 100000
 				}
-				t.Emit(tr.Rec{"ev": "ret", "c": cc, "n": 1, "kind": kind, "rc": -1, "rn": -1, "ms": ms, "bound": 200, "err": msg})
+				t.Emit(tr.Rec{"ev": "ret", "c": cc, "n": 1, "kind": kind, "rc": -1, "rn": -1, "ms": ms, "bound": 1500, "err": msg})
 			}(cc)
 		}
 		time.Sleep(40 * time.Millisecond)
